@@ -613,6 +613,12 @@ def run(repo, chk):
                    "WNTRSimulator uses options.time.start_clocktime directly, EpanetSimulator what the INP says", found=("%r reads back as %s s (written for %d s)" % (hb[0][1], hb[0][2], hb[0][0])) if hb else None)
     chk.floor("R-C03-2", 8)
 
+    # ---------------------------------------------------------------- R-C03-4 a rule's setting / speed action and the status that goes with it act on the same branch
+    # (EPANET applies setting and status together, on the branch that carries the action; WNTRSimulator adds a companion status control for it)
+    from .c05 import companion_rules
+    companion_rules(repo, chk, rule="R-C03-4", branch_rule="R-C03-4")
+    chk.floor("R-C03-4", 5)
+
 
 WITNESSES = [
     dict(name="noon-hour-written-as-am", file=EIO, old="        if hrs < 12:\n            time_format = ' AM'\n        else:\n            hrs -= 12\n            time_format = ' PM'",
